@@ -109,12 +109,12 @@ snapprop("C03", "proof", "Texel.Properties.C03",
     translators=["arith"])
 
 snapprop("C06", "other", "Texel.Properties.C06",
-    ["Texel.C06.C06_no_points_found_unreachable", "Texel.C06.C06_keys_encodable", "Texel.C06.C06_index_total", "Texel.C06.C06_ring_cleanup_total_partial", "Texel.C06.C06_total_up_to_kmp_partial"],
+    ["Texel.C06.C06_no_points_found_unreachable", "Texel.C06.C06_keys_encodable", "Texel.C06.C06_index_total", "Texel.C06.C06_ring_cleanup_total_partial", "Texel.C06.C06_total_up_to_kmp_partial", "Texel.C06.C06_F16_strip"],
     ["snap", "kmp", "split", FUNC],
     "Lean 4 theorems for the panic sites that are closed (no-points-found, MustToZ up to level 32, index construction, every panic of splitRing) + recover/watchdog exploration with adversarial sequences, function-level kmp/split correspondence",
     "Partial proof + exploration: the no-points-found panic, MustToZ up to level 32, the index construction and every panic of splitRing (stack index out of range, nil Newest, partial rings remaining) are proved unreachable for every in-grid polygon "
     "(C06_ring_cleanup_total_partial, C06_total_up_to_kmp_partial: whatever snapPolygonF raises for a polygon inside the grid is raised by kmpDeduplicate, dedupeInnersOuters raises nothing; under the hypothesis KmpNoDup, checked on the real code by the kmp stream); that kmpDeduplicate never reaches its index and slice panics and always terminates is NOT proved "
-    "(the model carries them as Except errors and fuel) and is explored: arbitrary and adversarially repetitive sequences under recover and a 20 s watchdog, exhaustive small alphabets in the thorough tier. Known finding F7 (panic above level 32).",
+    "(the model carries them as Except errors and fuel) and is explored: arbitrary and adversarially repetitive sequences under recover and a 20 s watchdog, exhaustive small alphabets in the thorough tier. Known findings F7 (panic above level 32) and F16 (a vertex inside the extent, within the reported deviation of its right or top edge, is reported as outside the grid: C06_F16_strip shows the strip on the model).",
     "Assumes nothing beyond the trusted base; a panic or hang found on any generated input is reported with the input.",
     extra_trusted=["totality of kmpDeduplicate (and the hypothesis KmpNoDup about it) is explored, not proved"])
 
